@@ -156,6 +156,10 @@ def run(ctx, eng):
             sorted(names)), not missing,
             'handlers for %s that re-raise as ProtocolError (missing: %s)'
             % (sorted(names), sorted(missing) or '-'), node=f2.node)
+    # RecursionError: FrameBuffer.__next__ calls itself once per swallowed
+    # frame; the depth is bounded only if every swallowed frame is counted
+    from .c27 import check_backlog
+    check_backlog(ctx, eng)
     for (name, exc), why in sorted(EXEMPT.items()):
         ctx.assume('exemption %s/%s: %s' % (name, exc, why))
     for q, why in ASSERT_AS_PRECONDITION.items():
